@@ -123,7 +123,7 @@ def has_dangling(views):
     return any(x == 'POSKeyError' or x is None for v in views.values() for x in v.values())
 
 
-def run_case(sh, s, tier, d, case, only=None):
+def run_case(sh, s, tier, d, case, only=None, prebuilt=None):
     from zv import recfs, clock
     from zv.objs import strong_refs
     from ZODB.serialize import referencesf
@@ -135,14 +135,20 @@ def run_case(sh, s, tier, d, case, only=None):
     recfs.LOG.enabled = False
     kind = rnd.choice(['file'] * 7 + ['mapping', 'mapping', 'demo'])
     nops = rnd.choice([6, 9, 12] if tier == 'quick' else [8, 12, 18])
-    db, st, trace = build_history(kind, s, d, FSM, nops)
     src = os.path.join(d, 'Data.fs')
+    if prebuilt is not None:
+        # a fixed witness history kept as a data file under /verif/witnesses
+        kind, trace, db = 'file', ['(witness file %s)' % os.path.basename(prebuilt)], None
+        shutil.copy(prebuilt, src)
+        st = FSM.FileStorage(src, read_only=True)
+    else:
+        db, st, trace = build_history(kind, s, d, FSM, nops)
     it = st.iterator()
     tids = [t.tid for t in it]
     if hasattr(it, 'close'):
         it.close()
     if kind == 'file':
-        db.close()
+        (db or st).close()
         ref = FSM.FileStorage(src, read_only=True)
     else:
         ref = st
@@ -224,10 +230,13 @@ def run_case(sh, s, tier, d, case, only=None):
                             b_, a_ = bv.get(o, 'absent'), av.get(o, 'absent')
                             if a_ == 'POSKeyError' or a_ is None or a_ == 'absent':
                                 what = 'reachable-object-missing-after-pack'
+                            elif b_ == 'POSKeyError' and isinstance(a_, tuple) and a_[1] <= T:
+                                # un-created at the snapshot before the pack, an older revision afterwards
+                                what = 'uncreated-object-resurrected-after-pack'
                             else:
                                 what = 'different-revision-after-pack'
                             # model feature: was the witness object unreachable at T?
-                            unreach_at_T = o not in before[min(before)]
+                            unreach_at_T = o not in before[min(before)] and what != 'uncreated-object-resurrected-after-pack'
                             sh.violation('c07:%s:%s%s' % (kind, what, ':object-unreachable-at-T-relinked-later' if unreach_at_T else ''),
                                          dict(wit, oid=o, snapshot=p, reopen=reopen,
                                               before=b_ if not isinstance(b_, tuple) else (b_[1], b_[2]),
@@ -273,7 +282,8 @@ def run_case(sh, s, tier, d, case, only=None):
                     continue
                 # --- undo of post-T transactions: packed vs unpacked
                 cands = [t[0] for t in post_before if t[1] == ' ']
-                for utid in rnd.sample(cands, min(len(cands), 2)):
+                urnd = random.Random(s * 4099 + (ti + 1) * 2 + int(gc))
+                for utid in (cands if only is not None else urnd.sample(cands, min(len(cands), 2))):
                     outs = []
                     for srcp in (src, wpath):
                         u = os.path.join(d, 'u')
@@ -283,7 +293,12 @@ def run_case(sh, s, tier, d, case, only=None):
                         outs.append(undo_outcome(FSM, os.path.join(u, 'Data.fs'), utid, strong_refs))
                     sh.count('post_T_undo_comparisons')
                     if outs[0] != outs[1]:
-                        sh.violation('c07:file:undo-of-post-T-transaction-differs-after-pack',
+                        feat = ''
+                        if outs[0][0] == outs[1][0] == 'ok':
+                            dif = sorted(o for o in set(outs[0][1]) | set(outs[1][1]) if outs[0][1].get(o) != outs[1][1].get(o))
+                            if dif and all(o not in before[min(before)] for o in dif):
+                                feat = ':object-unreachable-at-T-relinked-later'
+                        sh.violation('c07:file:undo-of-post-T-transaction-differs-after-pack' + feat,
                                      dict(wit, undone=utid, unpacked=outs[0][0], packed=outs[1][0]), c2)
                         bad = True
                         break
@@ -413,6 +428,11 @@ def replay_file(sh, case):
 def replay(case, scratch):
     logging.disable(logging.CRITICAL)
     sh = Shard({'scratch': scratch, 'budget_s': 600})
+    if 'data' in case and case.get('mode') == 'views':
+        here = os.path.dirname(os.path.dirname(os.path.dirname(os.path.abspath(__file__))))
+        guarded(sh, 'c07', case, lambda: run_case(sh, case.get('seed', 0), 'quick', sh.fresh_dir('c07'), case, only=case['only'],
+                                                  prebuilt=os.path.join(here, case['data'])))
+        return sh.violations
     if 'data' in case:
         guarded(sh, 'c07', case, lambda: replay_file(sh, case))
         return sh.violations
